@@ -9,22 +9,28 @@ namespace Sfw.Canon
     A loop is identified by the index of its header block (DetectLoops creates one loop per
     header), so `SCEVAddRec.Loop == loop` is a comparison of header indices. -/
 inductive SCEV where
-  | addRec  (start step : SCEV) (loopHeader : Nat)
+  | addRec  (start step : SCEV) (loopHeader : Nat) (typ : String)
   | const   (v : Int)
   | unknown (v : Option Val) (isInvariant : Bool)
   | generic (op : String) (x y : SCEV)
+  /-- an SCEVGenericExpr with `Commutative` set: taken from a source-level integer `+ * & | ^`
+      (fix "commutative integer operands inside loop bounds are printed in string order") -/
+  | comm    (op : String) (x y : SCEV)
   | max     (x y : SCEV)
   deriving Repr, Inhabited
 
 /-- `StringWithRenamer(r)`; `lbl` maps a loop (its header block) to its `Label`; the renamer threads a state `σ` (the register map), and Go evaluates
     the `Sprintf` arguments left to right -/
 def SCEV.render {σ : Type} (lbl : Nat → String) (r : Val → σ → String × σ) : SCEV → σ → String × σ
-  | .addRec start step h, st =>
+  | .addRec start step h typ, st =>
     let (a, st) := start.render lbl r st
     let (b, st) := step.render lbl r st
     -- `loopSuffix`: the recurrence names the loop it runs with (fix "an induction variable's closed
     -- form names the loop it runs with"); `lbl h` is `Loop.Label`, "" while the loop is unlabelled
-    ("{" ++ a ++ ", +, " ++ b ++ "}" ++ (if lbl h == "" then "" else "@" ++ lbl h), st)
+    -- `typeSuffix`: the type of the variable the recurrence wraps around in (fix "an induction
+    -- variable's closed form names the type it wraps around in"); "" = VarType unknown
+    ("{" ++ a ++ ", +, " ++ b ++ "}" ++ (if lbl h == "" then "" else "@" ++ lbl h) ++
+      (if typ == "" then "" else ":" ++ typ), st)
   | .const v, st => (toString v, st)
   | .unknown none inv, st => (if inv then "?(inv)" else "?", st)
   | .unknown (some v) inv, st =>
@@ -34,6 +40,12 @@ def SCEV.render {σ : Type} (lbl : Nat → String) (r : Val → σ → String ×
     let (a, st) := x.render lbl r st
     let (b, st) := y.render lbl r st
     ("(" ++ a ++ " " ++ op ++ " " ++ b ++ ")", st)
+  | .comm op x y, st =>
+    -- both operands are rendered (and named) in source order, then printed in string order
+    let (a, st) := x.render lbl r st
+    let (b, st) := y.render lbl r st
+    (if decide (b < a) then "(" ++ b ++ " " ++ op ++ " " ++ a ++ ")"
+     else "(" ++ a ++ " " ++ op ++ " " ++ b ++ ")", st)
   | .max x y, st =>
     let (a, st) := x.render lbl r st
     let (b, st) := y.render lbl r st
@@ -45,7 +57,7 @@ def bigQuo (x y : Int) : Int := Int.tdiv x y
 /-- `EvaluateAt(nil, nil)`: k = nil and no cache.  An AddRec evaluates its children and then
     answers nil because k is nil. -/
 def SCEV.evalNil : SCEV → Option Int
-  | .addRec _ _ _ => none
+  | .addRec _ _ _ _ => none
   | .const v => some v
   | .unknown _ _ => none
   | .generic op x y =>
@@ -55,6 +67,13 @@ def SCEV.evalNil : SCEV → Option Int
       else if op == "-" then some (a - b)
       else if op == "*" then some (a * b)
       else if op == "/" then (if b == 0 then none else some (bigQuo a b))
+      else none
+    | _, _ => none
+  | .comm op x y =>
+    match x.evalNil, y.evalNil with
+    | some a, some b =>
+      if op == "+" then some (a + b)
+      else if op == "*" then some (a * b)
       else none
     | _, _ => none
   | .max x y =>
